@@ -152,7 +152,8 @@ func Run(r *mon.Run) {
 	}
 
 	r.Floor("programs", int64(n))
-	r.Floor("shell_runs", int64(2*n))
+	r.Floor("shell_runs", int64(2*n*17/20)) // programs whose function name only bash accepts run in one shell
+	r.Floor("programs_whose_function_name_is_not_a_posix_name", int64(n/12))
 	r.Floor("static_body_checks", int64(n*9/10))
 	r.Floor("stdout_bytes_compared", 100_000)
 	r.Floor("die_cases", int64(n/20))
@@ -412,7 +413,16 @@ func checkProgram(r *mon.Run, a *acc, engine string, idx int, p *program, pr *pr
 		r.Count("no_argument_runs", 1)
 	}
 
+	dotted := strings.ContainsAny(name, ".-")
+	if dotted {
+		r.Count("programs_whose_function_name_is_not_a_posix_name", 1)
+	}
 	for _, sh := range shells {
+		if dotted && sh != "bash" {
+			// only bash defines functions whose names contain '.' or '-'
+			r.Count("shell_runs_skipped_name_not_posix", 1)
+			continue
+		}
 		d, ok := mk(sh)
 		if !ok {
 			return
